@@ -267,7 +267,8 @@ Lin(r, e) ==
   /\ Cl("M", "Lin.pc", pc[r] = "InTrial")
   /\ PS(<<
         <<"P:C17", "lin.error.type", e.raised \in {"none", "LinearSolverError"}>>,
-        <<"P:C17", "lin.finite", e.raised = "none" => e.finite>>
+        <<"P:C17", "lin.finite", e.raised = "none" => e.finite>>,
+        <<"P:C17", "lin.converged", e.raised = "none" => e.resOK>>
      >>)
   /\ inner' = [inner EXCEPT ![r] = [@ EXCEPT !.fault = @ \/ (e.raised # "none" /\ e.phase = "trial"),
                                             !.rcf = @ \/ (e.raised # "none" /\ e.phase = "rcond"),
